@@ -1,10 +1,62 @@
-(* C14: placeholder for the layout theorems (being proved); the tie obligations of the numbering
-   are Proofs/TieFormat.v; here a concrete instance of decode (encode f) = f. *)
-From BCL Require Import Spec.Format.
+(* C14: The version 1.1 bytecode file format is stable.
+
+   Spec/Format.v is the documented layout (encoder and an independent decoder written from the
+   documentation); the theorems say that Dump writes exactly that layout, that the independent
+   decoder recovers exactly the program's parts, that minor version 0 files still load, and that
+   the numbering found in the Go source TODAY (Gen/GenTables.v, regenerated on every run) is the
+   literal version-1.1 numbering.  The recorded corpus (corpus/v11) is the executable half. *)
+From Coq Require Import List NArith String.
+From BCL Require Import Model.DumpLoad Spec.Format Proofs.EncodingProofs Proofs.DumpLoadProofs Proofs.FormatProofs.
+From BCL Require Gen.GenTables Spec.Pinned Proofs.TieFormat.
+Import ListNotations.
 Open Scope N_scope.
+
+Theorem C14_layout : forall p b, wf_parts p -> dump p = Ok b -> b = encode (file_of p).
+Proof. exact FormatProofs.C14_layout. Qed.
+Print Assumptions C14_layout.
+
+Theorem C14_decode_encode : forall f rest, wf_parts (parts_of f) -> decode (encode f ++ rest) = Some (f, rest).
+Proof. exact FormatProofs.C14_decode_encode. Qed.
+Print Assumptions C14_decode_encode.
+
+Theorem C14_decode_dump : forall p b, wf_parts p -> dump p = Ok b -> decode b = Some (file_of p, []).
+Proof. exact FormatProofs.C14_decode_dump. Qed.
+Print Assumptions C14_decode_dump.
+
+Theorem C14_minor_compat : forall p b, wf_parts p -> dump p = Ok b ->
+  exists rest, b = 252 :: 108 :: 1 :: 1 :: rest /\ load_bytes (252 :: 108 :: 1 :: 0 :: rest) = Ok p
+               /\ decode (252 :: 108 :: 1 :: 0 :: rest) = Some (file_of p, []).
+Proof. exact FormatProofs.C14_minor_compat. Qed.
+Print Assumptions C14_minor_compat.
+
+Theorem C14_jump_operands : forall x rest, x < 65536 -> u16_dec (u16_enc x ++ rest) = Some x.
+Proof. exact FormatProofs.C14_jump_operands. Qed.
+Print Assumptions C14_jump_operands.
+
+(* the numbering in today's Go source is the version 1.1 numbering, literally *)
+Theorem C14_numbering :
+  GenTables.opcodes =
+    [("opNOP", 0); ("opRET", 1); ("opPRINT", 2); ("opSETLOCAL", 3); ("opGETLOCAL", 4); ("opDEFBLOCK", 5);
+     ("opENDBLOCK", 6); ("opSETFIELD", 7); ("opGETFIELD", 8); ("opCONST", 9); ("opNIL", 10); ("opZERO", 11);
+     ("opONE", 12); ("opTRUE", 13); ("opFALSE", 14); ("opNOT", 15); ("opEQ", 16); ("opLT", 17); ("opGT", 18);
+     ("opADD", 19); ("opSUB", 20); ("opMUL", 21); ("opDIV", 22); ("opNEG", 23); ("opUNPLUS", 24); ("opJUMP", 25);
+     ("opLOOP", 26); ("opJFALSE", 27); ("opPOP", 28); ("opPOPN", 29); ("opBIND", 30)]%string
+  /\ GenTables.typecodes = [("typeNIL", 0); ("typeINT", 1); ("typeFLOAT", 2); ("typeSTR", 3); ("typeBOOL", 4)]%string
+  /\ GenTables.bind_selectors = [("bindOne", 1); ("bindFirst", 2); ("bindLast", 3); ("bindAll", 15)]%string
+  /\ GenTables.bind_targets = [("bindStruct", 16); ("bindSlice", 32)]%string
+  /\ GenTables.magic = [252; 108]
+  /\ In ("bytecodeMajor", 1)%string GenTables.constants /\ In ("bytecodeMinor", 1)%string GenTables.constants
+  /\ In ("jumpByteLength", 2)%string GenTables.constants.
+Proof.
+  rewrite TieFormat.tie_opcodes, TieFormat.tie_typecodes, TieFormat.tie_bind_selectors, TieFormat.tie_bind_targets,
+          TieFormat.tie_magic, TieFormat.tie_constants.
+  repeat split; try reflexivity; cbn; tauto.
+Qed.
+Print Assumptions C14_numbering.
+
+(* non-vacuity *)
 Example C14_example :
   let f := {| f_name := [110]; f_code := [9; 0; 2; 1]; f_consts := [VStr [97]; VInt (-5); VBool true; VNil; VFloat 4609434218613702656];
               f_pos := [3; 3; 300; 70000]; f_lfs := [5] |} in
   decode (encode f) = Some (f, []).
 Proof. vm_compute. reflexivity. Qed.
-Print Assumptions C14_example.
